@@ -85,6 +85,29 @@ Section Progress.
       + intros [?|[?|?]]; discriminate.
   Qed.
 
+  Lemma inv0_RunFinishStop s s' : Inv0 s -> step s LRunFinishStop = Some s' -> Inv0 s'.
+  Proof.
+    intros I H. destruct I as [Zf Zr Zp Zl Zn Zb Zq]. open_step H.
+    destruct (crashed s); [discriminate|]. destruct (rpc s) eqn:Er; try discriminate.
+    assert (Hnr : holder s <> Some ByRun).
+    { intros E. destruct (Zr E) as [[? _]|[? _]]; congruence. }
+    assert (Hrel : forall i, holder s = Some (ByReload i) -> fsm_st s = FReloading).
+    { intros i E. destruct (Zl i E) as [?|[_ X]]; [assumption|]. unfold run_returned in X. rewrite Er in X. discriminate. }
+    destruct r.
+    - destruct (fsm_allowed (fsm_st s) FStopped) eqn:Ea; injection H as <-.
+      + constructor; cbn; auto; try (intros [?|?]; discriminate); try (intros [?|[?|?]]; discriminate).
+        * intros E; contradiction.
+        * intros i E. rewrite (Hrel i E) in Ea. discriminate.
+      + constructor; cbn; auto; try (intros [?|?]; discriminate); try (intros [?|[?|?]]; discriminate).
+        intros E; contradiction.
+    - injection H as <-. constructor; cbn; auto; try (intros [?|?]; discriminate); try (intros [?|[?|?]]; discriminate).
+      intros E; contradiction.
+    - injection H as <-. constructor; cbn; auto; try (intros [?|?]; discriminate); try (intros [?|[?|?]]; discriminate).
+      intros E; contradiction.
+    - injection H as <-. constructor; cbn; auto; try (intros [?|?]; discriminate); try (intros [?|[?|?]]; discriminate).
+      intros E; contradiction.
+  Qed.
+
   Lemma inv0_BootCrash s s' : Inv0 s -> step s LBootCrash = Some s' -> Inv0 s'.
   Proof.
     intros I H. destruct I as [Zf Zr Zp Zl Zn Zb Zq]. open_step H.
@@ -119,6 +142,7 @@ Section Progress.
   Proof.
     intros I H.
     destruct l; try (eapply inv0_RunWake; eassumption); try (eapply inv0_BootCrash; eassumption);
+      try (eapply inv0_RunFinishStop; eassumption);
       try (eapply inv0_BootCreate; eassumption); try (eapply inv0_ServeSkip; eassumption).
     all: destruct I as [Zf Zr Zp Zl Zn Zb Zq]; open_step H; crush_step H.
     all: try (constructor; cbn; assumption).
@@ -192,16 +216,11 @@ Section Progress.
     - destruct (Hrel KUnchanged eq_refl) as [i Eh]; auto. exists LUnchanged. rewrite ?Ek. unfold reload_finish. rewrite ?Eh.
       split; [reflexivity|discriminate].
     - destruct (once_done s) eqn:Eo.
-      + exists LStopSkip. rewrite ?Ek, ?Eo. unfold stop_done. cbn [holder with_server].
-        destruct (holder s) as [[|i]|]; [| |contradiction]; split; try reflexivity;
-          [destruct (fsm_allowed _ _)|]; discriminate.
+      + exists LStopSkip. rewrite ?Ek, ?Eo. split; [reflexivity|]. now apply stop_done_some.
       + destruct (server s) as [sid|] eqn:Es.
         * exists (LStopCallS sid). rewrite ?Ek, ?Es, ?Eo, ?Nat.eqb_refl. split; [reflexivity|discriminate].
-        * exists LStopSkip. rewrite ?Ek, ?Eo, ?Es. unfold stop_done. cbn [holder with_server].
-          destruct (holder s) as [[|i]|]; [| |contradiction]; split; try reflexivity; discriminate.
-    - exists (LShutdownRet sid SOk). rewrite ?Ek, ?Nat.eqb_refl. unfold stop_done. cbn [holder with_server].
-      destruct (holder s) as [[|i]|]; [| |contradiction]; split; try reflexivity;
-        [destruct (fsm_allowed _ _)|]; discriminate.
+        * exists LStopSkip. rewrite ?Ek, ?Eo, ?Es. split; [reflexivity|]. now apply stop_done_some.
+    - exists (LShutdownRet sid STimeout). cbn [sres_allowed]. rewrite ?Ek, ?Nat.eqb_refl. split; [reflexivity|]. now apply stop_done_some.
     - destruct (new_config_ok validated mux_ok (routes (cur s))) eqn:En.
       + destruct (mux_ok (map rpath (routes (cur s)))) eqn:Em.
         * exists (LBootCreate (length (servers s)) (cur s)). rewrite ?Ek, ?En, ?Em, ?Nat.eqb_refl, ?config_eqb_refl.
@@ -227,7 +246,7 @@ Section Progress.
         * exists LProbeTimeout. unfold srv_at. rewrite ?Hn, ?Eb. split; [reflexivity|discriminate].
     - destruct (z_probe _ I sid) as (Es & Eo & sv & Hn & Hsh); [auto|].
       exists (LCleanupCall sid). rewrite ?Ek, ?Es, ?Eo, !Nat.eqb_refl. split; [reflexivity|discriminate].
-    - exists (LShutdownRet sid SOk). rewrite ?Ek, ?Nat.eqb_refl. unfold fail_boot. cbn [holder with_server].
+    - exists (LShutdownRet sid STimeout). cbn [sres_allowed]. rewrite ?Ek, ?Nat.eqb_refl. unfold fail_boot. cbn [holder with_server].
       destruct (holder s) as [[|i]|]; [| |contradiction]; split; try reflexivity; discriminate.
     - destruct (Hrel KFinish eq_refl) as [i Eh]; auto. exists LFinish. rewrite ?Ek. unfold reload_finish. rewrite ?Eh.
       split; [reflexivity|discriminate].
@@ -258,5 +277,6 @@ Section Progress.
       + apply crit_progress0; auto. congruence.
       + exists LRunLockStop. unfold HttpServer.step, step_core. rewrite Hc, Er, Eh. split; [reflexivity|discriminate].
     - apply crit_progress0; auto. rewrite (z_rpc _ I); [discriminate|auto].
+    - exists LRunFinishStop. unfold HttpServer.step, step_core. rewrite Hc, Er. split; [reflexivity|discriminate].
   Qed.
 End Progress.
